@@ -285,7 +285,7 @@ var reviewedLoops = map[string]string{
 }
 
 func runC01(c *core.Ctx) {
-	c.Explanation = "Totality of lexer and parser decided by end-of-stream abstraction on SSA. For the parser family (parser, tester/syntax) and the lexer: (tok.progress) every cycle of every non-range loop contains a consume event (Tokenizer.NextToken / bufio ReadRune|Discard, reached directly, through a callee summarised always-consuming, on the true edge of a callee that consumes exactly when it returns true, or on the success edge of a callee summarised must-consume-on-success; summaries are least fixpoints); (tok.steady) with every stream read inside the loop folded to its exhausted-stream value (token types = EOF, Lexer.char = 0, reader calls fail), sparse conditional constant propagation with callee predicates evaluated on their constant arguments, comma-ok lookups in maps with known key sets (precedences, Pratt tables, assignmentOperators), and err != nil after callees summarised must-fail-at-end, no cycle through the loop header remains feasible; (tok.recursion) after deleting call edges must-preceded by a consume, the family call graph (static + Pratt tables + custom parsers) is acyclic. Together: on a finite input every loop iteration and recursion eats input until the stream is exhausted, and then no loop can go round. (tok.typed) every token leaving (*Lexer).NextToken has Type, Line and Position assigned on every path (forward must-store dataflow on the token cell). (err.located) every error value a parser function can return originates from a *ParseError constructor/literal or from a callee of the family, and no value returned next to an error is used before the error is tested. (idx.last) every x[len(x)-k] / x[:len(x)-k] in lexer and parser is dominated by a length test implying at least k elements, or x is freshly appended to on every path, or x is the result of a successful delimited read / Peek of at least one byte; one named exception."
+	c.Explanation = "Totality of lexer and parser decided by end-of-stream abstraction on SSA. For the parser family (parser, tester/syntax) and the lexer: (tok.progress) every cycle of every non-range loop contains a consume event (Tokenizer.NextToken / bufio ReadRune|Discard, reached directly, through a callee summarised always-consuming, on the true edge of a callee that consumes exactly when it returns true, or on the success edge of a callee summarised must-consume-on-success; summaries are least fixpoints); (tok.steady) with every stream read inside the loop folded to its exhausted-stream value (token types = EOF, Lexer.char = 0, reader calls fail), sparse conditional constant propagation with callee predicates evaluated on their constant arguments, comma-ok lookups in maps with known key sets (precedences, Pratt tables, assignmentOperators), and err != nil after callees summarised must-fail-at-end, no cycle through the loop header remains feasible; (tok.recursion) after deleting call edges must-preceded by a consume, the family call graph (static + Pratt tables + custom parsers) is acyclic. Together: on a finite input every loop iteration and recursion eats input until the stream is exhausted, and then no loop can go round. (tok.typed) every token leaving (*Lexer).NextToken has Type, Line and Position assigned on every path (forward must-store dataflow on the token cell). (err.located) every error value a parser function can return originates from a *ParseError constructor/literal or from a callee of the family, and no value returned next to an error is used before the error is tested. (idx.last) every x[len(x)-k] / x[:len(x)-k] in lexer and parser is dominated by a length test implying at least k elements, or x is freshly appended to on every path, or x is the result of a successful delimited read / Peek of at least one byte; one named exception. (err.token) the statement dispatchers report the current token when no arm takes it; (tok.depth) the recursion of the parser needs a depth counter (recorded finding)."
 	c.NotCovered = []string{"that line/column values are the right numbers", "recursion depth (stack exhaustion on pathologically deep nesting)", "that the error token is the intended one"}
 	c.Assumptions = []string{"no custom parser is registered for the EOF token", "an exhausted bufio.Reader keeps failing", "range loops over slices/maps terminate", "once the reader is exhausted the lexer yields EOF forever (checked: tok.steady of NextToken's own loops and E4 arm for char 0)"}
 
